@@ -1,0 +1,200 @@
+//! Verification hook (only compiled with `--cfg cormacrelf_incremental_rs_verif`).
+//!
+//! A registry of weak references to every node created in a state, and an audit of
+//! the engine's bookkeeping in the spirit of the OCaml `Node.invariant` /
+//! `State.invariant`, restricted to what can be stated from outside:
+//! symmetric edges, heights, the recompute heap, and the public counters.
+
+use crate::node::{ErasedNode, Node};
+use crate::{IncrState, NodeRef};
+use std::rc::Rc;
+
+pub(crate) fn register(node: &Rc<Node>) {
+    if let Some(state) = node.state_opt() {
+        state.verif_nodes.borrow_mut().push(node.weak());
+    }
+}
+
+fn children_of(n: &Node) -> Vec<(i32, NodeRef)> {
+    let mut v = vec![];
+    n.foreach_child(&mut |ix, c| v.push((ix, c)));
+    v
+}
+
+impl IncrState {
+    /// Number of nodes of this state that are still allocated.
+    pub fn verif_live_nodes(&self) -> usize {
+        let reg = self.inner.verif_nodes.borrow();
+        reg.iter().filter(|w| w.strong_count() > 0).count()
+    }
+
+    /// Audit the dependency bookkeeping. Must be called while not stabilising.
+    /// `expect_quiescent`: a stabilise has just returned and nothing was written since,
+    /// so no work may be pending and every needed valid node must have a value.
+    pub fn verif_audit(&self, expect_quiescent: bool) -> Vec<String> {
+        let t = &self.inner;
+        let mut out: Vec<String> = vec![];
+        if t.is_stabilising() {
+            out.push("audit called during stabilisation".into());
+            return out;
+        }
+        {
+            // drop dead registry entries
+            let mut reg = t.verif_nodes.borrow_mut();
+            reg.retain(|w| w.strong_count() > 0);
+        }
+        let nodes: Vec<NodeRef> = t.verif_nodes.borrow().iter().filter_map(|w| w.upgrade()).collect();
+        let max_h = t.recompute_heap.max_height_allowed();
+        let mut necessary = 0usize;
+        let (heap, heap_len) = t.recompute_heap.verif_dump();
+        if heap.len() != heap_len {
+            out.push(format!("recompute heap length field {} but {} nodes queued", heap_len, heap.len()));
+        }
+        for n in nodes.iter() {
+            let id = n.id;
+            let kind = n.kind_debug_ty();
+            let nec = n.is_necessary();
+            if nec {
+                necessary += 1;
+            }
+            let parents: Vec<Option<NodeRef>> = n.parents.borrow().iter().map(|w| w.upgrade()).collect();
+            let pci = n.parent_child_indices.borrow();
+            // ---- edges to children
+            if nec {
+                let kids = children_of(n);
+                for (ix, c) in kids.iter() {
+                    let pix = pci.my_parent_index_in_child_at_index.get(*ix as usize).copied().unwrap_or(-2);
+                    let cps = c.parents.borrow();
+                    let back = if pix >= 0 { cps.get(pix as usize).and_then(|w| w.upgrade()) } else { None };
+                    match back {
+                        Some(b) if crate::rc_thin_ptr_eq(&b, n) => {
+                            let cpci = c.parent_child_indices.borrow();
+                            let cix = cpci.my_child_index_in_parent_at_index.get(pix as usize).copied().unwrap_or(-2);
+                            if cix != *ix {
+                                out.push(format!("node {id:?} ({kind}) child #{ix} {:?}: child's record says it is our child #{cix}", c.id));
+                            }
+                        }
+                        _ => out.push(format!(
+                            "node {id:?} ({kind}) is needed but its child #{ix} {:?} does not list it as parent at index {pix}",
+                            c.id
+                        )),
+                    }
+                    if n.is_valid() && c.height() >= n.height() {
+                        out.push(format!("node {id:?} ({kind}) height {} is not above its child {:?} height {}", n.height(), c.id, c.height()));
+                    }
+                }
+                if n.is_valid() {
+                    let scope_alive = match &n.created_in {
+                        crate::scope::Scope::Top => true,
+                        crate::scope::Scope::Bind(w) => w.upgrade().is_some(),
+                    };
+                    let sh = n.created_in.height();
+                    if scope_alive && n.created_in.is_valid() && n.height() <= sh {
+                        out.push(format!("node {id:?} ({kind}) height {} is not above its creating scope's height {sh}", n.height()));
+                    }
+                    if n.height() > max_h {
+                        out.push(format!("node {id:?} ({kind}) height {} exceeds the limit {max_h}", n.height()));
+                    }
+                    if n.height() < 0 {
+                        out.push(format!("needed node {id:?} ({kind}) has height {}", n.height()));
+                    }
+                }
+            } else {
+                if !parents.is_empty() {
+                    out.push(format!("node {id:?} ({kind}) is not needed but has {} dependants", parents.len()));
+                }
+                if n.is_in_recompute_heap() {
+                    out.push(format!("node {id:?} ({kind}) is not needed but is scheduled"));
+                }
+            }
+            // ---- edges to parents
+            for (pix, p) in parents.iter().enumerate() {
+                let Some(p) = p else {
+                    out.push(format!("node {id:?} ({kind}) parent #{pix} is a dead reference"));
+                    continue;
+                };
+                if !p.is_necessary() {
+                    out.push(format!("node {id:?} ({kind}) has dependant {:?} which is not needed", p.id));
+                }
+                let cix = pci.my_child_index_in_parent_at_index.get(pix).copied().unwrap_or(-2);
+                let pk = children_of(p);
+                let found = pk.iter().find(|(ix, _)| *ix == cix);
+                match found {
+                    Some((_, c)) if crate::rc_thin_ptr_eq(c, n) => {
+                        let ppci = p.parent_child_indices.borrow();
+                        let back = ppci.my_parent_index_in_child_at_index.get(cix as usize).copied().unwrap_or(-2);
+                        if back != pix as i32 {
+                            out.push(format!(
+                                "node {id:?} ({kind}) parent #{pix} {:?}: parent's record says it is our parent #{back}",
+                                p.id
+                            ));
+                        }
+                    }
+                    _ => {
+                        // an invalid parent keeps no children
+                        if p.is_valid() {
+                            out.push(format!(
+                                "node {id:?} ({kind}) lists {:?} as parent #{pix} (its child #{cix}) but that node does not have it there",
+                                p.id
+                            ));
+                        }
+                    }
+                }
+            }
+            // ---- scheduling
+            let queued: Vec<usize> = heap.iter().filter(|(_, q)| crate::rc_thin_ptr_eq(q, n)).map(|(ix, _)| *ix).collect();
+            let should = n.needs_to_be_computed();
+            match (should, queued.len()) {
+                (true, 1) | (false, 0) => {}
+                (true, 0) => out.push(format!("node {id:?} ({kind}) is needed and stale but not scheduled")),
+                (false, k) => out.push(format!("node {id:?} ({kind}) is scheduled {k} time(s) but is not needed-and-stale")),
+                (true, k) => out.push(format!("node {id:?} ({kind}) is scheduled {k} times")),
+            }
+            for q in queued.iter() {
+                if *q as i32 != n.height() || n.height_in_recompute_heap.get() != n.height() {
+                    out.push(format!(
+                        "node {id:?} ({kind}) is scheduled under height {q} (recorded {}), its height is {}",
+                        n.height_in_recompute_heap.get(),
+                        n.height()
+                    ));
+                }
+            }
+            if queued.is_empty() && n.height_in_recompute_heap.get() != -1 {
+                out.push(format!("node {id:?} ({kind}) thinks it is scheduled (height {}) but is not in the heap", n.height_in_recompute_heap.get()));
+            }
+            if n.height_in_adjust_heights_heap.get() != -1 {
+                out.push(format!("node {id:?} ({kind}) is still marked as being in the adjust-heights heap"));
+            }
+            if expect_quiescent && nec && n.is_valid() && n.value_as_any().is_none() {
+                out.push(format!("node {id:?} ({kind}) is needed and valid but has no value after stabilise"));
+            }
+            // ---- handler count
+            let own = n.on_update_handlers.borrow().len() as i32;
+            let via_obs: i32 = n.observers.borrow().values().filter_map(|w| w.upgrade()).map(|o| o.num_handlers()).sum();
+            if n.num_on_update_handlers.get() != own + via_obs {
+                out.push(format!(
+                    "node {id:?} ({kind}) counts {} update handlers but {} are registered ({own} on the node, {via_obs} through its observers)",
+                    n.num_on_update_handlers.get(),
+                    own + via_obs
+                ));
+            }
+        }
+        // queued nodes must be registered, live nodes
+        for (ix, q) in heap.iter() {
+            if !nodes.iter().any(|n| crate::rc_thin_ptr_eq(n, q)) {
+                out.push(format!("recompute heap holds unknown node {:?} at height {ix}", q.id));
+            }
+        }
+        if !t.adjust_heights_heap.borrow().is_empty() {
+            out.push("adjust-heights heap is not empty".into());
+        }
+        if expect_quiescent && !heap.is_empty() {
+            out.push(format!("{} nodes still scheduled after stabilise", heap.len()));
+        }
+        let stats = self.stats();
+        if stats.necessary != necessary {
+            out.push(format!("stats().necessary = {} but {} nodes are needed", stats.necessary, necessary));
+        }
+        out
+    }
+}
